@@ -25,6 +25,9 @@ an insert); obligation `tinydb_methods_single_section` over the regenerated `tin
 containers stored several times and removal BY VALUE (`delv k` = LDMMaintenance.del_provider_data with the container of
 the k-th add, model line `delv`, boundary family (d)): one copy goes per removal on both back-ends
 (Props.C13 `same_history_same_objects`, lean/FlexModel/Ldm/QueryBackends.lean).
+Round 6: HETEROGENEOUS selections ordered by PLAIN attribute names living at different paths in the selected message types
+(`gen_plain_order`, boundary family (e); oracle `spec_find` / `order_value`); obligation `order_key_is_per_object` over the
+regenerated `orderKeyShared` (harness/gen_ldm_subs.py order_key_shared); Props.C13 `plain_name_order_exact`.
 """
 from __future__ import annotations
 
@@ -50,8 +53,11 @@ TRUSTED = [
 ASSUMPTIONS = [
     "filters: one or two statements, joined by and/or when two (a second statement with logical operator None is run "
     "for model correspondence only - the property does not define it and the back-ends differ there)",
-    "attribute paths are dotted paths inside the message; order attributes are dotted paths too (bare names keep "
-    "their legacy depth-first meaning and are compared model-vs-code only)",
+    "attribute paths are dotted paths inside the message; order attributes are dotted paths too, or PLAIN names: a plain "
+    "name means, for EACH object on its own, the first occurrence of the key depth-first through the stored record "
+    "(`spec_find`; round 6: judged by the oracle whenever every selected object has the name with values of one "
+    "comparable class - the same name sits at different paths in different message types; a plain name missing / of "
+    "mixed type somewhere is compared model-vs-code only and is NOT waived by C13-KF2)",
     "comparison of a value with a reference value of another type: == false, != true, ordering not matching",
     "known finding C13-KF1: TinyDB cannot store a message that contains bytes (BIT STRING / OCTET STRING values): "
     "add_provider_data raises TypeError; side-by-side histories therefore use messages without such fields",
@@ -143,6 +149,28 @@ def type_of(obj):
     return None
 
 
+def spec_find(rec, name):
+    """value of a PLAIN order attribute in one stored record: the first occurrence of the key, depth-first through the
+    dictionaries of the record in dictionary order (the documented meaning of a bare name) - looked up in EVERY object on
+    its own: the same name sits at different paths in different message types (cam.generationDeltaTime /
+    vam.generationDeltaTime; ...basicContainer.stationType / denm.management.stationType)"""
+    stack = [iter(rec.items())]
+    while stack:
+        for k, v in stack[-1]:
+            if k == name:
+                return v
+            if isinstance(v, dict):
+                stack.append(iter(v.items()))
+                break
+        else:
+            stack.pop()
+    return MISSING
+
+
+def order_value(rec, attr):
+    return spec_lookup(rec["dataObject"], attr) if "." in attr else spec_find(rec, attr)
+
+
 def spec_query(stored, types, flt, order):
     """stored: list of record dicts (store order).  Returns ("ok", [records]) or ("order-undefined", None)."""
     sel = [d for d in stored if type_of(d["dataObject"]) in types and spec_matches(flt, d["dataObject"])]
@@ -150,7 +178,7 @@ def spec_query(stored, types, flt, order):
         return "ok", sel
     keys = []
     for d in sel:
-        ks = [spec_lookup(d["dataObject"], a) for a, _ in order["keys"]]
+        ks = [order_value(d, a) for a, _ in order["keys"]]
         keys.append(ks)
     for j in range(len(order["keys"])):
         col = [ks[j] for ks in keys]
@@ -307,8 +335,42 @@ def gen_filter(rng, objs, paths):
     return [gen_stmt(rng, objs, paths), lop, gen_stmt(rng, objs, paths)]
 
 
+def plain_names(objs):
+    """(names of int/str leaves of the messages, those among them that sit at DIFFERENT paths in different objects)"""
+    at = {}
+    for o in objs:
+        for p, v in L.leaf_paths(o):
+            if isinstance(v, (int, str)) and not isinstance(v, bool):
+                at.setdefault(p.split(".")[-1], set()).add(p)
+    names = sorted(at)
+    return names, [n for n in names if len(at[n]) > 1]
+
+
+def gen_plain_order(rng, objs, paths):
+    """order tuple with PLAIN attribute names (round 6): each object is ordered by the value the name has in IT, wherever
+    the name sits there; names living at different paths in the selected message types are preferred"""
+    names, moved = plain_names(objs)
+    names = names + ["timestamp", "application_id", "latitude", "timeValidity"]
+    n = rng.choice([1, 1, 1, 2, 2, 3])
+    keys = []
+    for _ in range(n):
+        x = rng.random()
+        if moved and x < 0.6:
+            a = rng.choice(moved)
+        elif x < 0.85:
+            a = rng.choice(names)
+        elif x < 0.95 and paths:
+            a = rng.choice(paths)                     # a dotted key among the plain ones
+        else:
+            a = rng.choice(["zzz", "header", "generationDeltaTime", "stationType"])
+        keys.append([a, rng.choice("ad")])
+    return {"kind": rng.choice("LU"), "keys": keys}
+
+
 def gen_order(rng, objs, paths, legacy=False):
     x = rng.random()
+    if legacy and objs and x < 0.85:
+        return gen_plain_order(rng, objs, paths)
     if x < 0.5:
         return None
     if legacy and x < 0.6:
@@ -340,7 +402,10 @@ def gen_requests(rng, objs, paths, n):
             types = [rng.choice(present)]
         else:
             types = rng.choice([[2], [16], [1], [2, 16], [1, 2, 16], [1, 2, 16, 14, 3, 20], [14, 3], []])
-        legacy = rng.random() < 0.1
+        legacy = rng.random() < 0.16
+        if legacy and present and rng.random() < 0.7:
+            # heterogeneous selections: all stored types, or two of them
+            types = present if (len(present) < 3 or rng.random() < 0.5) else sorted(rng.sample(present, 2))
         reqs.append(["req", 2, types, None, gen_order(rng, objs, paths, legacy), gen_filter(rng, objs, paths)])
     return reqs
 
@@ -487,6 +552,33 @@ def boundary_cases():
                 + q + [["delv", 2]] + q + [["delv", 0]] + q})
     out.append({"json_only": True, "ops": [a_, b_, list(b_), list(b_)] + [["updk", 2, 1, L.ser(cam(9, 5, 999))]] + q + [["delv", 2]] + q
                 + [list(b_)] + q + [["delv", 1]] + q})
+    # (e) round 6: HETEROGENEOUS selections ordered by PLAIN attribute names that sit at different paths in the selected
+    #     message types (generationDeltaTime: cam.* / vam.*; stationType: cam.camParameters.basicContainer.* /
+    #     vam.vamParameters.basicContainer.* / denm.management.*): every selected object HAS the attribute, with comparable
+    #     values, so the order is defined and the request must answer - with the first stored object of each type in turn
+    def gdt(d, g, stype=None):
+        kind = "cam" if "cam" in d else "vam" if "vam" in d else "denm"
+        if g is not None:
+            d[kind]["generationDeltaTime"] = g
+        if stype is not None:
+            (d["denm"]["management"] if kind == "denm" else d[kind][kind + "Parameters"]["basicContainer"])["stationType"] = stype
+        return d
+    mixed = [gdt(cam(1, 5, 100), 5), gdt(vam(2), 1, 12), gdt(cam(3, 8, 300), 8), gdt(denm(4), None, 15), gdt(vam(5), 2, 2),
+             gdt(denm(6, 3, "accident"), None, 3), gdt(cam(7, 6, 200), 6), gdt(vam(8, "ordinary"), 8, 5)]
+    for rot in (0, 1, 3):
+        store = mixed[rot:] + mixed[:rot]
+        reqs = []
+        for types in ([2, 16], [1, 2], [1, 16], [1, 2, 16], [2], [16], [1]):
+            for keys in ([["stationType", "a"]], [["stationType", "d"]], [["stationType", "a"], ["stationId", "d"]],
+                         [["stationId", "d"], ["stationType", "a"]], [["stationType", "d"], ["header.stationId", "a"]],
+                         [["timestamp", "d"], ["stationType", "a"]]):
+                reqs.append(["req", 2, types, None, {"kind": "U", "keys": keys}, None])
+            reqs.append(["req", 2, types, None, {"kind": "L", "keys": [["stationType", "a"]]}, [[sp, "gt", L.ser(2)]]])
+            if 1 not in types:
+                for keys in ([["generationDeltaTime", "a"]], [["generationDeltaTime", "d"]],
+                             [["generationDeltaTime", "d"], ["stationType", "a"]], [["stationType", "d"], ["generationDeltaTime", "a"]]):
+                    reqs.append(["req", 2, types, None, {"kind": "U", "keys": keys}, None])
+        out.append({"json_only": True, "ops": [add(k, o) for k, o in enumerate(store)] + reqs})
     return out
 
 
@@ -502,15 +594,21 @@ def judge_request(req, line, stored, backend):
     _, app, types, prio, order, flt = req
     if flt not in (None, "!") and len(flt) == 3 and flt[1] == "?":
         return []                                     # outside the property (see ASSUMPTIONS)
-    if is_legacy_order(order):
-        return []
     head, recs, _ = L.split_line(line)
     kind, want = spec_query(stored, set(types), flt, order)
     if kind == "order-undefined":
+        if is_legacy_order(order):
+            return []                                 # plain name missing / of mixed type somewhere: model-vs-code only
         if head[0] == "x":
             return [(f"{backend}: ordering by an attribute missing / of mixed type in the selection raised {head[1]}", "C13-KF2")]
         return []
     if head[0] != "ok":
+        if order not in (None, "!") and order["keys"]:
+            sel = [d for d in stored if type_of(d["dataObject"]) in set(types) and spec_matches(flt, d["dataObject"])]
+            vals = [[order_value(d, a) for a, _ in order["keys"]] for d in sel]
+            return [(f"{backend}: request over types {types} ordered by {order['keys']}: every selected object has the order "
+                     f"attribute(s) with comparable values ({[(type_name(d['dataObject']), v) for d, v in zip(sel, vals)][:8]}) "
+                     f"but the request answered {head[:2]} instead of the {len(want)} objects in that order", None)]
         return [(f"{backend}: query answered {head[:2]} instead of data", None)]
     want_tok = [L.ser_record(d) for d in want]
     if recs == want_tok:
@@ -662,6 +760,16 @@ def run_case(ctx, case, tag, model_dict=None, model_tiny=None):
                 for what, fid in judge_request(req, ln, stored, be):
                     ctx.violation(f"{tag}: {what}", replay_case(case, req), fid)
                 wv.append(waiver_flags(req, stored))
+                if is_legacy_order(req[4]):
+                    try:
+                        fl = req[5] if not (req[5] == "!" or (req[5] and len(req[5]) == 3 and req[5][1] == "?")) else None
+                        sel = spec_query(stored, set(req[2]), fl, None)[1]
+                        defined = spec_query(stored, set(req[2]), fl, req[4])[0] == "ok"
+                        hetero = len({type_of(d["dataObject"]) for d in sel}) > 1
+                        ctx.cover(f"plain_order:{'defined' if defined else 'undefined'}:"
+                                  f"{'several_types' if hetero else 'one_type' if sel else 'empty'}")
+                    except Exception:
+                        pass
                 hd = ln.split(" ")[0]
                 nrec = ln.count("{")
                 ctx.cover(f"{be}:{hd}")
